@@ -431,16 +431,19 @@ inline constexpr double integrate_absolute_polynomial(double t0, double t1, doub
   // location of second zero (if any)
   double mid2 = std::numeric_limits<double>::infinity();
 
-  if (std::abs(A) < 1e-9 && std::abs(B) > 1e-9) {
+  if (A == 0) {
     // linear non-constant function
-    mid1 = std::clamp(-C / B, t0, t1);
-  } else if (std::abs(A) > 1e-9) {
-    // quadratic function
-    const double res = B * B / (4 * A * A) - C / A;
+    if (B != 0) { mid1 = -C / B; }
+  } else {
+    // quadratic function: roots q / A and C / q (no cancellation, and no threshold on the size of the coefficients:
+    // for a vanishing A the second root moves out to infinity and the first one tends to -C / B)
+    const double disc = B * B - 4 * A * C;
 
-    if (res > 0) {
-      mid1 = -B / (2 * A) - std::sqrt(res);
-      mid2 = -B / (2 * A) + std::sqrt(res);
+    if (disc > 0) {
+      const double q  = -(B + (B < 0 ? -1. : 1.) * std::sqrt(disc)) / 2;
+      const double r1 = q / A, r2 = C / q;
+      mid1 = std::min(r1, r2);
+      mid2 = std::max(r1, r2);
     }
   }
 
